@@ -238,4 +238,16 @@ theorem C01_window_update_after_merge_overwrites :
       = 1 + 16 + 4 + 8 := by
   decide
 
+/-- **Wit** (WindowedBinaryAUROC, which does update `max_num_samples`): merging copies the buffers in
+    slot order and restarts the cursor, so after merging a wrapped target (window 3, fed ½,⅛ then ¾,¼:
+    buffer [¼,⅛,¾], oldest entry ⅛) with a full source, the next sample evicts the target's NEWEST
+    sample ¼ (slot 0) instead of its oldest: AUROC ½ instead of 2/9 for the newest six samples. -/
+theorem C01_auroc_update_after_merge_evicts_newest :
+    (((SBuf.run 1 3 [[[(1/2, 1, 1)], [(1/8, 0, 1)]], [[(3/4, 1, 1)], [(1/4, 1, 1)]]]).merge
+        [SBuf.run 1 3 [[[(5/8, 0, 1)], [(3/8, 1, 1)], [(7/8, 0, 1)]]]]).update [[(1/2, 0, 1)]]).compute
+      = .ok (.scalar (1/2)) ∧
+    binaryAuroc 1 [[((3/4 : Q), (1 : Q), (1 : Q))], [(1/4, 1, 1)], [(5/8, 0, 1)], [(3/8, 1, 1)], [(7/8, 0, 1)],
+        [(1/2, 0, 1)]] = .ok (.scalar (2/9)) := by
+  decide +kernel
+
 end TE.C13
